@@ -133,156 +133,6 @@ example :
 
 /-! ## 4b. liveness while SENDING: a silent peer is noticed whatever the endpoint itself sends -/
 
-/-- ops of a send-only tail: packets sent (effective or not) and `health` polls — nothing received -/
-def Op.sendOrPoll : Op → Bool
-  | .sent _ _ => true
-  | .health _ => true
-  | _ => false
-
-def clockAfter (k : Nat) (ops : List Op) : Nat := ops.foldl clockStep k
-
-private theorem mono_append_right : ∀ {a b : List Op} {k : Nat}, Mono k (a ++ b) → Mono (clockAfter k a) b := by
-  intro a
-  induction a with
-  | nil => intro b k h; exact h
-  | cons op a ih =>
-    intro b k h
-    rw [List.cons_append, mono_cons] at h
-    exact ih h.2
-
-private theorem clockAfter_snoc_health (k t : Nat) (a : List Op) : clockAfter k (a ++ [.health t]) = t := by
-  simp [clockAfter, List.foldl_append, clockStep, Op.time]
-
-/-- an op admissible in a tail: send or poll, and — unless the flag `sent_since_rcvd` is known to be set
-(`fl = true`) — not an effective send -/
-private def TailOp (fl : Bool) (op : Op) : Prop := op.sendOrPoll = true ∧ (fl = true ∨ op.isEff = false)
-
-/-- the state of a timer during a send-only tail that began after `c0 + defer` -/
-private def Tail (fl : Bool) (cfg0 : Cfg) (c0 : Nat) (tm : Timer) (k : Nat) : Prop :=
-  tm.cfg = cfg0 ∧ (fl = true → tm.sentSinceRcvd = true) ∧ tm.lastComm = some c0 ∧ c0 + cfg0.defer < k ∧
-    ∀ x, tm.idleBegin = some x → x ≤ k
-
-private theorem sent_noop {fl : Bool} {tm : Timer} (hf : fl = true → tm.sentSinceRcvd = true) (e : Bool) (x : Nat)
-    (hop : TailOp fl (.sent e x)) : (step tm (.sent e x)).1 = tm := by
-  cases e
-  · simp [step, onSent]
-  · rcases hop.2 with h | h
-    · simp [step, onSent, hf h]
-    · simp [Op.isEff] at h
-
-private theorem tail_step {fl : Bool} {cfg0 : Cfg} {c0 : Nat} {tm : Timer} {k : Nat} (h : Tail fl cfg0 c0 tm k)
-    (op : Op) (hop : TailOp fl op) (hk : ∀ x, op.time = some x → k ≤ x) :
-    Tail fl cfg0 c0 (step tm op).1 (clockStep k op) := by
-  obtain ⟨h1, h2, h3, h4, h5⟩ := h
-  cases op with
-  | sent e x =>
-    have hx := hk x rfl
-    rw [sent_noop h2 e x hop]
-    exact ⟨h1, h2, h3, by simp [clockStep, Op.time]; omega,
-      fun y hy => by have := h5 y hy; simp [clockStep, Op.time]; omega⟩
-  | health x =>
-    have hx := hk x rfl
-    have he : x - c0 > tm.cfg.defer := by rw [h1]; omega
-    cases hi : tm.idleBegin with
-    | none =>
-      have : (step tm (.health x)).1 = { tm with idleBegin := some x } := by simp [step, health, h3, he, hi]
-      rw [this]
-      exact ⟨h1, h2, h3, by simp [clockStep, Op.time]; omega, by simp [clockStep, Op.time]⟩
-    | some b =>
-      have : (step tm (.health x)).1 = tm := by simp [step, health, h3, he, hi]
-      rw [this]
-      exact ⟨h1, h2, h3, by simp [clockStep, Op.time]; omega,
-        fun y hy => by have := h5 y hy; simp [clockStep, Op.time]; omega⟩
-  | rcvd e x => have := hop.1; simp [Op.sendOrPoll] at this
-  | negotiate r => have := hop.1; simp [Op.sendOrPoll] at this
-
-private theorem tail_run {fl : Bool} {cfg0 : Cfg} {c0 : Nat} (ops : List Op) : ∀ {tm : Timer} {k : Nat},
-    Tail fl cfg0 c0 tm k → (∀ op ∈ ops, TailOp fl op) → Mono k ops →
-    Tail fl cfg0 c0 (run tm ops) (clockAfter k ops) := by
-  induction ops with
-  | nil => intro tm k h _ _; exact h
-  | cons op ops ih =>
-    intro tm k h hs hm
-    rw [mono_cons] at hm
-    exact ih (tail_step h op (hs op List.mem_cons_self) hm.1) (fun o ho => hs o (List.mem_cons_of_mem _ ho)) hm.2
-
-/-- once idle has begun, a send-only tail changes nothing at all -/
-private theorem tail_const {fl : Bool} (tm : Timer) (c0 b : Nat) (hf : fl = true → tm.sentSinceRcvd = true)
-    (hc : tm.lastComm = some c0) (hi : tm.idleBegin = some b) (ops : List Op) : ∀ (k : Nat),
-    c0 + tm.cfg.defer < k → (∀ op ∈ ops, TailOp fl op) → Mono k ops → run tm ops = tm := by
-  induction ops with
-  | nil => intro _ _ _ _; rfl
-  | cons op ops ih =>
-    intro k hk hs hm
-    rw [mono_cons] at hm
-    have hop := hs op List.mem_cons_self
-    have hstep : (step tm op).1 = tm := by
-      cases op with
-      | sent e x => exact sent_noop hf e x hop
-      | health x =>
-        have hx : k ≤ x := hm.1 x rfl
-        have : x - c0 > tm.cfg.defer := by omega
-        simp [step, health, hc, this, hi]
-      | rcvd e x => have := hop.1; simp [Op.sendOrPoll] at this
-      | negotiate r => have := hop.1; simp [Op.sendOrPoll] at this
-    show run (step tm op).1 ops = tm
-    rw [hstep]
-    have hk' : c0 + tm.cfg.defer < clockStep k op := by
-      cases op with
-      | sent e x => have := hm.1 x rfl; simp [clockStep, Op.time]; omega
-      | health x => have := hm.1 x rfl; simp [clockStep, Op.time]; omega
-      | rcvd e x => have := hop.1; simp [Op.sendOrPoll] at this
-      | negotiate r => have := hop.1; simp [Op.sendOrPoll] at this
-    exact ih _ hk' (fun o ho => hs o (List.mem_cons_of_mem _ ho)) hm.2
-
-private theorem despite_core (fl : Bool) (tm : Timer) (c0 t1 t2 : Nat) (a b : List Op)
-    (hf : fl = true → tm.sentSinceRcvd = true) (hc : tm.lastComm = some c0) (h0 : tm.cfg.maxIdle ≠ 0)
-    (ha : ∀ op ∈ a, TailOp fl op) (hb : ∀ op ∈ b, TailOp fl op)
-    (hm : Mono (c0 + tm.cfg.defer + 1) (a ++ [.health t1] ++ b ++ [.health t2]))
-    (hi : ∀ x, tm.idleBegin = some x → x ≤ c0 + tm.cfg.defer + 1)
-    (h2 : t1 + tm.cfg.maxIdle < t2) :
-    (step (run tm (a ++ [.health t1] ++ b)) (.health t2)).2 = .timeout := by
-  have hT : Tail fl tm.cfg c0 tm (c0 + tm.cfg.defer + 1) := ⟨rfl, hf, hc, by omega, hi⟩
-  have hm1 : Mono (c0 + tm.cfg.defer + 1) (a ++ [.health t1]) := mono_append_left (mono_append_left hm)
-  have hs1 : ∀ op ∈ a ++ [.health t1], TailOp fl op := by
-    intro op ho
-    rcases List.mem_append.1 ho with ho | ho
-    · exact ha op ho
-    · simp at ho; subst ho; exact ⟨rfl, Or.inr rfl⟩
-  have hT1 := tail_run (a ++ [.health t1]) hT hs1 hm1
-  rw [clockAfter_snoc_health] at hT1
-  obtain ⟨g1, g2, g3, g4, g5⟩ := hT1
-  have hib : ∃ x, (run tm (a ++ [.health t1])).idleBegin = some x := by
-    have hTa := tail_run a hT ha (mono_append_left hm1)
-    obtain ⟨q1, _, q3, q4, _⟩ := hTa
-    have hk1 : clockAfter (c0 + tm.cfg.defer + 1) a ≤ t1 := by
-      have := mono_append_right hm1
-      simp only [Mono] at this
-      exact this.1
-    have he : t1 - c0 > (run tm a).cfg.defer := by rw [q1]; omega
-    have : run tm (a ++ [.health t1]) = (step (run tm a) (.health t1)).1 := by simp [run, List.foldl_append]
-    rw [this]
-    cases hi' : (run tm a).idleBegin with
-    | none => exact ⟨t1, by simp [step, health, q3, he, hi']⟩
-    | some x => exact ⟨x, by simp [step, health, q3, he, hi']⟩
-  obtain ⟨x, hx⟩ := hib
-  have hxle := g5 x hx
-  have hm2 : Mono t1 (b ++ [.health t2]) := by
-    have : a ++ [.health t1] ++ b ++ [.health t2] = (a ++ [.health t1]) ++ (b ++ [.health t2]) := by simp
-    rw [this] at hm
-    have := mono_append_right hm
-    rwa [clockAfter_snoc_health] at this
-  have hconst : run (run tm (a ++ [.health t1])) b = run tm (a ++ [.health t1]) :=
-    tail_const _ c0 x g2 g3 hx b t1 (by rw [g1]; exact g4) hb (mono_append_left hm2)
-  have hrun : run tm (a ++ [.health t1] ++ b) = run (run tm (a ++ [.health t1])) b := by
-    simp [run, List.foldl_append]
-  rw [hrun, hconst]
-  have hk2 : t1 ≤ t2 := by omega
-  have he2 : t2 - c0 > (run tm (a ++ [.health t1])).cfg.defer := by rw [g1]; omega
-  have h0' : (run tm (a ++ [.health t1])).cfg.maxIdle ≠ 0 := by rw [g1]; exact h0
-  have hlt : t2 - x > (run tm (a ++ [.health t1])).cfg.maxIdle := by rw [g1]; omega
-  simp [step, health, g3, he2, hx, timeoutCheck, h0', hlt]
-
 /-- **Full-strength clause (fixed code).**  From ANY timer state in which an effective packet has already been
 sent since the last receive (`sentSinceRcvd`; the restart it caused was at `c0`), with idle timeout enabled: over
 ANY send-only tail — any number of effective or non-effective sends and polls, nothing received — a poll at `t1`
@@ -346,20 +196,6 @@ example :
     let ops := (List.range 20).flatMap fun i => [Op.sent true (2 * i + 1), Op.health (2 * i + 1), Op.health (2 * i + 2)]
     (ops.foldl (fun (acc : Timer × Bool) o => let r := stepOld acc.1 o; (r.1, acc.2 || r.2 == .timeout)) (tm, false)).2 = false := by
   decide
-
-private theorem stepOld_eq_step (t : Timer) (op : Op) (h : op.isEff = false) : stepOld t op = step t op := by
-  cases op with
-  | sent e x => cases e <;> simp_all [stepOld, step, onSent, onSentOld, Op.isEff]
-  | _ => rfl
-
-private theorem runOld_eq_run (ops : List Op) : ∀ t : Timer, (∀ op ∈ ops, op.isEff = false) → runOld t ops = run t ops := by
-  induction ops with
-  | nil => intro _ _; rfl
-  | cons op ops ih =>
-    intro t h
-    show runOld (stepOld t op).1 ops = run (step t op).1 ops
-    rw [stepOld_eq_step t op (h op List.mem_cons_self)]
-    exact ih _ (fun o ho => h o (List.mem_cons_of_mem _ ho))
 
 /-- … and what the code as found does guarantee: the clause restricted to tails without effective sends. -/
 theorem idle_eventually_despite_sending_partial (tm : Timer) (c0 t1 t2 : Nat) (a b : List Op)
